@@ -52,9 +52,10 @@ CHECKS["C04"] = {
     "covers": {"all": ["ZZ_C04_Lookup:C04.lookup.done", "ZZ_C04_NodeLookup:C04.nodelookup.done", "ZZ_C04_New:C04.new.done",
                        "ZZ_C04_DeleteNode:C04.delete.hit", "ZZ_C04_DeleteNode:C04.delete.miss", "ZZ_C04_DeleteLocal:C04.delete.hit",
                        "ZZ_C04_Reset:C04.reset.done", "ZZ_C04_RemoteSess:C04.remotesess.done",
-                       "ZZ_C04_ModifyHeader:C04.mod.done", "ZZ_C04_DeleteHeader:C04.del.done"]},
+                       "ZZ_C04_ModifyHeader:C04.mod.done", "ZZ_C04_DeleteHeader:C04.del.done",
+                       "ZZ_C04_ReportRspZero:C04.reportrsp0.hit", "ZZ_C04_ReportRspZero:C04.reportrsp0.miss"]},
     "bounds": {
-        "quick": "one-step induction: every SEID-table shape of length <= 3 (any nil pattern, any free-list permutation, any owner assignment over 2 nodes, symbolic CP SEIDs) x one operation (lookup, node lookup, new, delete via node, delete local, node reset, remote lookup, Modification/Deletion request header) with unconstrained 64-bit SEID arguments",
+        "quick": "one-step induction: every SEID-table shape of length <= 3 (any nil pattern, any free-list permutation, any owner assignment over 2 nodes, symbolic CP SEIDs) x one operation (lookup, node lookup, new, delete via node, delete local, node reset, remote lookup, Modification/Deletion request header, Session Report Response with SEID 0 for a symbolic CP SEID and either peer) with unconstrained 64-bit SEID arguments",
         "thorough": "same with table length <= 4",
     },
     "outside": "tables longer than the bound; more than two control-plane nodes",
